@@ -344,6 +344,15 @@ SOLO_COMPOSITES = [
     L("anyof3_nonadjacent_scalar", {"anyOf": [STR, INT, {"type": "string", "maxLength": 2}]}, ff=False, enf=False),
     L("oneof3_nonadjacent_tuple", {"oneOf": [{"type": "array", "items": [INT, INT], "minItems": 2, "maxItems": 2}, obj({"p": STR}, ["p"]),
                                              {"type": "array", "items": [INT, INT, INT], "minItems": 3, "maxItems": 3}]}, enf=True),
+    # tuple positions that are DIFFERENT in-line objects (each needs a generated name of its own), also next to a fixed array of in-line objects
+    L("tuple_two_objs", {"type": "array", "items": [obj({"x": INT, "label": STR}, ["x"]), obj({"x": INT, "weight": {"type": "number"}}, ["x"])], "minItems": 2, "maxItems": 2}, enf=True),
+    L("tuple_obj_enum_obj", {"type": "array", "items": [obj({"a": STR}), {"type": "string", "enum": ["p", "q"]}, obj({"b": INT}), {"type": "string", "enum": ["r", "s"]}],
+                             "minItems": 4, "maxItems": 4}, enf=True),
+    # a tagged variant carrying ANOTHER required single-valued string property that sorts before the tag name and exists in that variant only
+    L("int_tag_extra_const_before", {"oneOf": [obj({"kind": {"type": "string", "enum": ["circle"]}, "api": {"type": "string", "enum": ["v1"]}, "radius": INT}, ["kind", "api", "radius"]),
+                                               obj({"kind": {"type": "string", "enum": ["square"]}, "side": INT}, ["kind", "side"])]}, enf=True),
+    L("adj_tag_content_const", {"oneOf": [obj({"kind": {"type": "string", "enum": ["text"]}, "body": STR}, ["kind", "body"]),
+                                          obj({"kind": {"type": "string", "enum": ["ping"]}, "body": {"type": "string", "enum": ["empty"]}}, ["kind", "body"])]}, enf=True),
     # anyOf / oneOf of objects that pin TWO shared required properties to constants, one to the same value and one to different values
     # (a versioned tagged union): whether the branches are exclusive must not depend on which pinned property is looked at first
     L("anyof_two_pinned", {"anyOf": [obj({"kind": {"type": "string", "enum": ["circle"]}, "version": {"type": "string", "enum": ["v1"]}, "r": INT}, ["kind", "version", "r"]),
